@@ -123,8 +123,10 @@ typedef struct {
    int fs, ch, app, cx, vbr, cvbr, ubr /* -1000 auto, -1 max, else b/s */, out_bytes, q /* frame size in 2.5 ms units */;
    int dtx, fec, loss, sigtype, force_ch, maxbw, int16_api, noise_gap /* gap = low noise instead of digital silence */;
    int vary /* mid-stream ctl changes */, unaligned;
-   int nseg; int seg_ms[MAXSEG]; int seg_active[MAXSEG];
+   int nseg; int seg_ms[MAXSEG]; int seg_active[MAXSEG] /* 0 gap, 1 speech, 2 faint noise (stereo: anti-phase, R = -L) */;
+   int seg_cx[MAXSEG] /* OPUS_SET_COMPLEXITY at the first call of the segment; 0 = leave */;
    uint64_t sigseed;
+   char scen[160];   /* "" for generated runs, else "<family> <index> <description>" */
 } runcfg;
 
 static const int QS[9] = {1, 2, 4, 8, 16, 24, 32, 40, 48};
@@ -185,6 +187,75 @@ static void gen_run(vrng *r, runcfg *c, int tier_long)
       if (c->nseg > 3) c->nseg = 3;
       for (i = 0; i < c->nseg; i++) if (c->seg_ms[i] > 800) c->seg_ms[i] = 800;
    }
+}
+
+/* ---------------------------------------------------------------- deterministic scenarios
+   silence-grid  : speech 1 s, digital silence 1.6 s, speech 0.4 s over Fs>=16k x channels x application x
+                   all nine frame durations x complexity {7,10} x VBR/CBR  (the S4 clause "digital silence at
+                   complexity >= 7, Fs >= 16 kHz must reach DTX within the stated window")
+   regime-switch : runs in which the detector in charge (generalised / SILK) changes in the middle of a gap */
+static const int GRID_FS[3] = {16000, 24000, 48000};
+static const int GRID_APP[3] = {OPUS_APPLICATION_VOIP, OPUS_APPLICATION_AUDIO, OPUS_APPLICATION_RESTRICTED_LOWDELAY};
+static int scen_cfg(const char *family, int idx, runcfg *c)
+{
+   memset(c, 0, sizeof(*c));
+   c->ubr = -1000; c->out_bytes = 1276; c->dtx = 1; c->sigtype = OPUS_AUTO; c->force_ch = OPUS_AUTO;
+   c->maxbw = OPUS_BANDWIDTH_FULLBAND; c->vbr = 1; c->cvbr = 0; c->sigseed = 0x5eed0000u + (unsigned)idx;
+   if (!strcmp(family, "silence-grid")) {
+      int i = idx;
+      if (idx < 0 || idx >= 3 * 2 * 3 * 9 * 2 * 2) return 0;
+      c->vbr = i % 2; i /= 2;
+      c->cx = (i % 2) ? 10 : 7; i /= 2;
+      c->q = QS[i % 9]; i /= 9;
+      c->app = GRID_APP[i % 3]; i /= 3;
+      c->ch = 1 + i % 2; i /= 2;
+      c->fs = GRID_FS[i % 3];
+      if (!c->vbr) c->ubr = 32000;
+      c->nseg = 3;
+      c->seg_ms[0] = 1000; c->seg_active[0] = 1;
+      c->seg_ms[1] = 1600; c->seg_active[1] = 0;
+      c->seg_ms[2] = 400;  c->seg_active[2] = 1;
+      snprintf(c->scen, sizeof(c->scen), "silence-grid %d fs=%d ch=%d app=%d q=%d cx=%d vbr=%d", idx, c->fs, c->ch, c->app, c->q, c->cx, c->vbr);
+      return 1;
+   }
+   if (!strcmp(family, "silk-bust")) {
+      /* DTX off, FEC on, 60 ms stereo SILK packets, tight output buffer: SILK exceeds its budget */
+      if (idx != 0) return 0;
+      c->fs = 16000; c->ch = 2; c->app = OPUS_APPLICATION_VOIP; c->cx = 3; c->vbr = 1; c->cvbr = 1; c->ubr = 87781;
+      c->out_bytes = 79; c->q = 24; c->dtx = 0; c->fec = 1; c->loss = 4; c->nseg = 1;
+      c->seg_ms[0] = 3000; c->seg_active[0] = 1;
+      snprintf(c->scen, sizeof(c->scen), "silk-bust 0 fs=16000 ch=2 voip cx=3 cvbr 87781b/s out=79 q=24 dtx=0 fec=1 loss=4 speech3000");
+      return 1;
+   }
+   if (!strcmp(family, "regime-switch")) {
+      c->fs = 16000; c->app = OPUS_APPLICATION_VOIP; c->cx = 10; c->sigtype = OPUS_SIGNAL_VOICE; c->q = 8;
+      switch (idx) {
+      case 0: /* fixed configuration: stereo, faint anti-phase noise keeps analysis_info.valid at 0 */
+         c->ch = 2; c->ubr = 16000; c->nseg = 3;
+         c->seg_ms[0] = 200; c->seg_active[0] = 0;
+         c->seg_ms[1] = 400; c->seg_active[1] = 2;
+         c->seg_ms[2] = 600; c->seg_active[2] = 0;
+         snprintf(c->scen, sizeof(c->scen), "regime-switch 0 antiphase-stereo fs=16000 ch=2 q=8 cx=10 silence200,faint400,silence600");
+         return 1;
+      case 1: /* complexity 10 -> 5 -> 10 during digital silence */
+         c->ch = 1; c->ubr = 12000; c->nseg = 4; c->vary = 0;
+         c->seg_ms[0] = 1000; c->seg_active[0] = 1;
+         c->seg_ms[1] = 200;  c->seg_active[1] = 0;
+         c->seg_ms[2] = 360;  c->seg_active[2] = 0; c->seg_cx[2] = 5;
+         c->seg_ms[3] = 600;  c->seg_active[3] = 0; c->seg_cx[3] = 10;
+         snprintf(c->scen, sizeof(c->scen), "regime-switch 1 complexity-ctl fs=16000 ch=1 q=8 cx=10,5,10 speech1000,silence200,silence360,silence600");
+         return 1;
+      case 2: /* as 0 with 40 ms packets (two SILK frames per packet) */
+         c->ch = 2; c->ubr = 16000; c->q = 16; c->nseg = 3;
+         c->seg_ms[0] = 200; c->seg_active[0] = 0;
+         c->seg_ms[1] = 400; c->seg_active[1] = 2;
+         c->seg_ms[2] = 640; c->seg_active[2] = 0;
+         snprintf(c->scen, sizeof(c->scen), "regime-switch 2 antiphase-stereo fs=16000 ch=2 q=16 cx=10 silence200,faint400,silence640");
+         return 1;
+      default: return 0;
+      }
+   }
+   return 0;
 }
 
 /* ---------------------------------------------------------------- signal */
@@ -277,7 +348,7 @@ static void print_oracles(FILE *f, const callrec *c, int evbase)
    for (k = 0; k < c->nsub; k++) {
       int start = i, nsilk = 0;
       while (vlog[i].kind == 0) { nsilk++; i++; }
-      fprintf(f, " %d %d %d", vlog[i].valid, vlog[i].activity, nsilk);
+      fprintf(f, " %d %d %d %d", vlog[i].valid, vlog[i].activity, (c->nsub == 1 && c->bust) ? 1 : 0, nsilk);
       for (j = start; j < i; j++) {
          int t;
          fprintf(f, " %d %d %d", vlog[j].prefill, vlog[j].nch, vlog[j].nfr);
@@ -301,18 +372,24 @@ static void print_state(FILE *f, const int *s)
 /* ---------------------------------------------------------------- one run */
 typedef struct {
    long calls, dtx_packets, tiny_nodtx, runs, onset_checked, resume_checked, off_checked, gray_tiny, dec_checked;
-   long silk_dtx_packets, multi_dtx_packets, lowb_calls, cfg_gen, cfg_silk, refresh_seen, bad_coh;
+   long silk_dtx_packets, multi_dtx_packets, lowb_calls, cfg_gen, cfg_silk, refresh_seen, bad_coh, mixed_runs, scen_runs, bust_packets, tie_dtx, tie_silk_dtx, tie_multi_dtx, tie_lowb, tie_indtx;
    long violations;
 } stats;
 static stats S;
 static int g_tie, g_verbose;
 static char **g_ovr; static int g_novr;
 
+static char g_input[256];     /* how to re-run the current run: "run <subseed> <long>" or "scenario <family> <idx> …" */
+static int g_bust;             /* the current violation is a "SILK busted its budget" packet with DTX off */
+static int g_mixed;            /* the current violation concerns a run across a change of the detector in charge */
 static void witness(const char *clause, uint64_t subseed, int call, const char *fmt, ...)
 {
    va_list ap;
    S.violations++;
-   printf("W {\"clause\":\"%s\",\"subseed\":\"%llu\",\"call\":%d,\"detail\":\"", clause, (unsigned long long)subseed, call);
+   printf("W {\"clause\":\"%s\",\"input\":\"%s%s\",\"subseed\":\"%llu\",\"call\":%d,\"detail\":\"", clause,
+          g_mixed && strncmp(g_input, "scenario regime-switch", 22) ? "scenario regime-switch (found in) " :
+          g_bust && strncmp(g_input, "scenario silk-bust", 18) ? "scenario silk-bust (found in) " : "", g_input,
+          (unsigned long long)subseed, call);
    va_start(ap, fmt); vprintf(fmt, ap); va_end(ap);
    printf("\"}\n");
 }
@@ -332,7 +409,7 @@ static int evbase_of[MAXCALLS];
 static vev evstore[MAXCALLS * 8];
 static long evstore_n;
 
-static void do_run(uint64_t subseed, int tier_long)
+static void do_run(uint64_t subseed, int tier_long, const runcfg *preset)
 {
    vrng r; runcfg c; OpusEncoder *enc; OpusDecoder *dec = NULL, *dec2 = NULL;
    int err, ncalls = 0, i, seg, fsz, pure = 1;
@@ -340,8 +417,11 @@ static void do_run(uint64_t subseed, int tier_long)
    float *pcm; short *pcm16; float *in_all = NULL;
    sig sg; unsigned char pkt[4000];
    int analysis_on;
+   int cur_seg = -1;
    r.s = subseed;
-   gen_run(&r, &c, tier_long);
+   if (preset) { c = *preset; snprintf(g_input, sizeof(g_input), "scenario %s", c.scen); }
+   else { gen_run(&r, &c, tier_long); snprintf(g_input, sizeof(g_input), "run %llu %d", (unsigned long long)subseed, tier_long); }
+   g_mixed = 0;
    { /* optional overrides (replay experiments): key=value pairs */
       int a;
       for (a = 0; a < g_novr; a++) {
@@ -411,6 +491,14 @@ static void do_run(uint64_t subseed, int tier_long)
          default: opus_encoder_ctl(enc, OPUS_SET_SIGNAL(vchance(&r, 50) ? OPUS_SIGNAL_VOICE : OPUS_SIGNAL_MUSIC)); break;
          }
       }
+      /* per-segment complexity change (scenario runs) */
+      {
+         seg = 0; while (seg < c.nseg - 1 && pos >= seg_end[seg]) seg++;
+         if (seg != cur_seg) {
+            cur_seg = seg;
+            if (c.seg_cx[seg]) { opus_encoder_ctl(enc, OPUS_SET_COMPLEXITY(c.seg_cx[seg])); pure = 0; }
+         }
+      }
       /* input */
       for (n = 0; n < fsz; n++) {
          int active; float x;
@@ -419,6 +507,13 @@ static void do_run(uint64_t subseed, int tier_long)
          active = c.seg_active[seg];
          x = sig_speech(&sg, c.fs);
          if (!active) x = c.noise_gap ? (float)(0.0002 * sig_noise(&sg)) : 0.f;
+         if (active == 2) {   /* faint noise; stereo: exactly anti-phase, so that the analysis downmix is digital silence */
+            x = (float)(0.0001 * sig_noise(&sg));
+            for (k = 0; k < c.ch; k++) pcm[n * c.ch + k] = (k == 1) ? -x : x;
+            if (x != 0) allzero = 0;
+            if (in_all) in_all[(long)i * fsz + n] = x;
+            continue;
+         }
          if (c.int16_api) { short s16 = (short)lrintf(x * 32767.f); x = s16 / 32768.f; for (k = 0; k < c.ch; k++) pcm16[n * c.ch + k] = s16; }
          for (k = 0; k < c.ch; k++) pcm[n * c.ch + k] = (k == 1) ? 0.8f * x : x;
          if (c.int16_api && c.ch == 2) pcm16[n * c.ch + 1] = (short)(pcm16[n * c.ch] * 4 / 5);
@@ -464,8 +559,12 @@ static void do_run(uint64_t subseed, int tier_long)
       cr->valid0 = v_valid0 > 0 ? 1 : 0;
       if (cr->nsub > 0) {
          int sil = 0; for (k = 0; k < vlogn; k++) if (vlog[k].kind == 1) { sil = vlog[k].is_silence; break; }
-         if (cr->valid0 == 0 && !sil) for (k = 0; k < vlogn; k++) if (vlog[k].kind == 1 && vlog[k].valid) { S.bad_coh++; break; }
+         if (cr->valid0 == 0 && !sil) for (k = 0; k < vlogn; k++) if (vlog[k].kind == 1 && vlog[k].valid) { S.bad_coh++; if (!g_tie && g_verbose) printf("# incoherent-valid %s call %d\n", g_input, i); break; }
       }
+      /* 2-byte "PLC frame" of a single-frame packet: SILK exceeded its bit budget (src/opus_encoder.c:2443-2452).
+         It is the inner encoder's output, not a DTX return: a single-frame DTX packet has one byte. */
+      cr->bust = (ret == 2 && pkt[1] == 0 && cr->nsub == 1 && !cr->lowb && vlogn >= 2 && vlog[vlogn - 2].kind == 0 && !vlog[vlogn - 2].nbytes_zero
+                  && !(cr->post[0] > cr->pre[0]));
       evbase_of[i] = (int)evstore_n;
       for (k = 0; k < vlogn && evstore_n < (long)(sizeof(evstore) / sizeof(evstore[0])); k++) evstore[evstore_n++] = vlog[k];
       if (g_tie) {
@@ -482,9 +581,11 @@ static void do_run(uint64_t subseed, int tier_long)
          printf(" indtx=%d st=", (int)v); print_state(stdout, cr->post);
          printf("%s\n", vlog_overflow ? " OVERFLOW" : "");
       }
-      cr->bust = (ret == 2 && pkt[1] == 0 && cr->nsub == 1 && !cr->lowb && vlogn >= 2 && vlog[vlogn - 2].kind == 0 && !vlog[vlogn - 2].nbytes_zero
-                  && !(cr->post[0] > cr->pre[0]));
       S.calls++;
+      if (cr->bust) S.bust_packets++;
+      if (ret >= 1 && ret <= 2 && !cr->lowb && !cr->bust) { S.tie_dtx++; if (cr->post[2]) S.tie_silk_dtx++; if (cr->nsub > 1) S.tie_multi_dtx++; }
+      if (cr->lowb) S.tie_lowb++;
+      if (v) S.tie_indtx++;
       if (ret >= 0) { pkts[i] = (unsigned char *)malloc(ret > 0 ? ret : 1); memcpy(pkts[i], pkt, ret); } else pkts[i] = NULL;
       if (g_verbose > 1)
          printf("# call %d t=%dms len=%d indtx=%d digsil=%d nb=%d->%d mode=%d pm=%d c0=%d lowb=%d act=%d/%d\n", i, i * c.q * 5 / 2, ret, (int)v, allzero,
@@ -513,11 +614,13 @@ static void do_run(uint64_t subseed, int tier_long)
    if (!g_tie) {
       int Fq1 = 5 * c.q;
       long t_stop_q1 = 0;       /* end of the last coded sub-frame whose activity decision was != 0 (Q1 ms) */
-      int run_len_q1 = 0, run_first = -1, seen_dtx_since_stop = 0;
+      int run_len_q1 = 0, run_first = -1, seen_dtx_since_stop = 0, run_regime = 0, run_mixed = 0;
       float *out = (float *)calloc((size_t)fsz * c.ch, sizeof(float));
+      int bust_reported = 0, nbust = 0;
+      for (i = 0; i < ncalls; i++) nbust += calls[i].bust;
       for (i = 0; i < ncalls; i++) {
          callrec *cr = &calls[i];
-         int tiny = cr->len >= 0 && cr->len <= 2;
+         int tiny = cr->len >= 0 && cr->len <= 2 && !cr->bust;   /* DTX / low-budget packet */
          long t0 = (long)i * Fq1;
          if (cr->len < 0) { witness("encode_error", subseed, i, "opus_encode returned %s", verr(cr->len)); continue; }
          if (cr->lowb) S.lowb_calls++;
@@ -525,6 +628,12 @@ static void do_run(uint64_t subseed, int tier_long)
          if (!cr->dtx_on && !cr->lowb) {
             S.off_checked++;
             if (tiny) witness("dtx_off_no_tiny", subseed, i, "DTX disabled, budget not in the low-budget class, yet len=%d", cr->len);
+            if (cr->bust) {
+               g_bust = 1;
+               if (!bust_reported) witness("dtx_off_no_tiny", subseed, i, "DTX disabled, buffer %d bytes and bitrate allow far more than three bytes, yet len=2 (TOC + 00: SILK exceeded its bit budget, src/opus_encoder.c:2443-2452); %d such packets in this run", c.out_bytes, nbust);
+               bust_reported = 1;
+               g_bust = 0;
+            }
          }
          if (!cr->dtx_on && cr->gray && tiny) S.gray_tiny++;
          if (tiny && !cr->lowb) {
@@ -541,32 +650,37 @@ static void do_run(uint64_t subseed, int tier_long)
          if (cr->any_active && !cr->lowb) S.resume_checked++;
          /* run bound */
          if (tiny && !cr->lowb && cr->dtx_on) {
-            if (run_first < 0) { run_first = i; run_len_q1 = 0; S.runs++; }
+            if (run_first < 0) { run_first = i; run_len_q1 = 0; S.runs++; run_regime = cr->post[2]; run_mixed = 0; }
+            if (cr->post[2] != run_regime) { if (!run_mixed) S.mixed_runs++; run_mixed = 1; }
             run_len_q1 += Fq1;
-            if (run_len_q1 >= 800 + Fq1)
-               witness("dtx_run_bound", subseed, i, "run of DTX packets starting at call %d lasts %d/2 ms >= 400 ms + frame %d/2 ms", run_first, run_len_q1, Fq1);
+            if (run_len_q1 >= 800 + Fq1 && run_len_q1 - Fq1 < 800 + Fq1) {   /* reported once per run */
+               g_mixed = run_mixed;
+               witness("dtx_run_bound", subseed, i, "run of DTX packets starting at call %d lasts %d/2 ms >= 400 ms + frame %d/2 ms%s", run_first, run_len_q1, Fq1,
+                       run_mixed ? " (silk_mode.useDTX changed inside the run: the detector in charge changed)" : " (one detector in charge throughout)");
+               g_mixed = 0;
+            }
          } else {
             if (run_first >= 0 && !cr->lowb) S.refresh_seen++;
             run_first = -1;
          }
-         /* onset under the generalised detector on digital silence */
+         /* onset under the generalised detector on digital silence.  "Activity stopped" is the encoder's own
+            decision: the end of the last coded frame of a non-DTX packet whose activity value was not 0. */
          if (cr->dtx_on && analysis_on && !cr->lowb && pure) {
-            /* every sub-frame lasts Fq1/nsub */
-            if (cr->nsub > 0) {
-               int k, sub = 0, fsub = Fq1 / cr->nsub;
+            if (!tiny && cr->nsub > 0) {
+               int k, sub = 0, fsub = Fq1 / cr->nsub;   /* every coded frame lasts Fq1/nsub */
                for (k = evbase_of[i]; k < (i + 1 < ncalls ? evbase_of[i + 1] : (int)evstore_n); k++)
                   if (evstore[k].kind == 1) { sub++; if (evstore[k].activity != 0) { t_stop_q1 = t0 + (long)sub * fsub; seen_dtx_since_stop = 0; } }
             }
-            if (cr->digsil && cr->all_inactive) {
+            {
                long dt = t0 - t_stop_q1;     /* start of this packet relative to the stop of activity */
                if (tiny) {
-                  if (!seen_dtx_since_stop) {
+                  if (!seen_dtx_since_stop && cr->digsil && cr->all_inactive) {
                      S.onset_checked++;
                      if (!(dt > 400 - Fq1 && dt < 400 + Fq1))
                         witness("dtx_onset", subseed, i, "first DTX packet starts %ld/2 ms after activity stopped (frame %d/2 ms)", dt, Fq1);
                   }
                   seen_dtx_since_stop = 1;
-               } else if (!seen_dtx_since_stop && dt >= 400 + Fq1) {
+               } else if (cr->digsil && cr->all_inactive && !seen_dtx_since_stop && dt >= 400 + Fq1) {
                   witness("dtx_onset", subseed, i, "no DTX packet although digital silence has lasted %ld/2 ms since activity stopped (frame %d/2 ms)", dt, Fq1);
                   seen_dtx_since_stop = 1;
                }
@@ -580,7 +694,7 @@ static void do_run(uint64_t subseed, int tier_long)
             callrec *cr = &calls[i];
             int tiny, n1, n2, n;
             if (cr->len < 0 || !pkts[i]) continue;
-            tiny = cr->len <= 2;
+            tiny = cr->len <= 2 && !cr->bust;
             n1 = opus_decode_float(dec, pkts[i], cr->len, out, fsz, 0);
             if (n1 != fsz) witness("decoder_duration", subseed, i, "decode of %d-byte packet returned %d, requested %d", cr->len, n1, fsz);
             if (n1 == fsz) {
@@ -627,20 +741,37 @@ int main(int argc, char **argv)
       for (i = 0; i < n; i++) {
          uint64_t sub = vnext(&top);
          long v0 = S.violations;
-         do_run(sub, tier_long);
+         do_run(sub, tier_long, NULL);
          if (!g_tie && S.violations > v0) printf("# violating run subseed=%llu\n", (unsigned long long)sub);
       }
    } else if (argc >= 3 && !strcmp(argv[1], "one")) {
       g_tie = 0; g_verbose = argc >= 4 ? atoi(argv[3]) : 1;
       if (argc >= 5 && !strcmp(argv[4], "tie")) g_tie = 1;
       if (argc > 6) { g_ovr = argv + 6; g_novr = argc - 6; }
-      do_run(strtoull(argv[2], NULL, 10), argc >= 6 ? atoi(argv[5]) : 0);
+      do_run(strtoull(argv[2], NULL, 10), argc >= 6 ? atoi(argv[5]) : 0, NULL);
+   } else if (argc >= 5 && !strcmp(argv[1], "scen")) {
+      /* scen <family> <from> <to> [stride] [verbose] [tie]: deterministic scenarios from..to-1 (step stride) */
+      int from = atoi(argv[3]), to = atoi(argv[4]), stride = argc >= 6 ? atoi(argv[5]) : 1, i;
+      runcfg pc;
+      g_tie = argc >= 8 && !strcmp(argv[7], "tie"); g_verbose = argc >= 7 ? atoi(argv[6]) : 0;
+      if (stride < 1) stride = 1;
+      for (i = from; i < to; i += stride) {
+         long v0 = S.violations;
+         if (!scen_cfg(argv[2], i, &pc)) break;
+         do_run(0x5ce0000u + (unsigned)i, 0, &pc);
+         S.scen_runs++;
+         if (!g_tie && S.violations > v0) printf("# violating scenario %s\n", pc.scen);
+      }
    } else {
-      fprintf(stderr, "usage: c20_dtx tie|search <seed> <nruns> [long] | one <subseed> [verbose] [tie] [long]\n");
+      fprintf(stderr, "usage: c20_dtx tie|search <seed> <nruns> [long] | one <subseed> [verbose] [tie] [long] | scen <family> <from> <to> [stride] [verbose] [tie]\n");
       return 64;
    }
-   printf("# stats calls=%ld dtx_packets=%ld silk_dtx=%ld multiframe_dtx=%ld runs=%ld refresh=%ld onset_checked=%ld resume_checked=%ld off_checked=%ld gray_tiny=%ld lowbudget_calls=%ld dec_checked=%ld cfg_generalised=%ld cfg_silkdtx=%ld incoherent_valid=%ld violations=%ld\n",
+   if (g_tie)
+      printf("# tie-dist calls=%ld dtx_packets=%ld silk_dtx_packets=%ld multiframe_dtx_packets=%ld lowbudget_calls=%ld in_dtx_answers_1=%ld cfg_generalised=%ld cfg_silkdtx=%ld incoherent_valid=%ld silk_bust_packets=%ld\n",
+             S.calls, S.tie_dtx, S.tie_silk_dtx, S.tie_multi_dtx, S.tie_lowb, S.tie_indtx, S.cfg_gen, S.cfg_silk, S.bad_coh, S.bust_packets);
+   else
+   printf("# stats calls=%ld dtx_packets=%ld silk_dtx=%ld multiframe_dtx=%ld runs=%ld refresh=%ld onset_checked=%ld resume_checked=%ld off_checked=%ld gray_tiny=%ld lowbudget_calls=%ld dec_checked=%ld cfg_generalised=%ld cfg_silkdtx=%ld incoherent_valid=%ld mixed_detector_runs=%ld scenario_runs=%ld silk_bust_packets=%ld violations=%ld\n",
           S.calls, S.dtx_packets, S.silk_dtx_packets, S.multi_dtx_packets, S.runs, S.refresh_seen, S.onset_checked, S.resume_checked, S.off_checked,
-          S.gray_tiny, S.lowb_calls, S.dec_checked, S.cfg_gen, S.cfg_silk, S.bad_coh, S.violations);
+          S.gray_tiny, S.lowb_calls, S.dec_checked, S.cfg_gen, S.cfg_silk, S.bad_coh, S.mixed_runs, S.scen_runs, S.bust_packets, S.violations);
    return 0;
 }
